@@ -310,6 +310,6 @@ def _check(oc, prop, tier, seed, replay, workdir):
     rc = oc.finish("model_checking", rule, ASSUME,
                    extra_cov={"groups": [f"{GROUPS[m['g']]}/{m['sc']}" for _, m in traces if "g" in m],
                               "design_model_runs": model_results,
-                              "exhaustive": "SparseHost runs are exhaustive for their constants; C19.pattern is decided exactly per listed group",
+                              "exhaustive_parts": "SparseHost runs are exhaustive for their constants; C19.pattern is decided exactly per listed group",
                               "checker_cmd": "java tlc2.TLC SparseHost.tla (constants per run) ; java tlc2.TLC -config TraceSparse.cfg TraceSparse.tla (one process per trace chunk)"})
     return rc
